@@ -167,7 +167,9 @@ def scanOpts : Bytes → Int → List Msg → Except Err (Bytes × Int)
         | .absent :: _ => .error (errMissing b!"pattern" errEOM)
         | v :: ms' => match msgStr v with
           | .error e => .error (errMissing b!"pattern" e)
-          | .ok pat => scanOpts (globRegex pat) c ms'
+          | .ok pat =>
+            -- `glob.Compile` fails on a pattern that is not valid UTF-8 (Go's regexp requires it)
+            if validUtf8 pat then scanOpts (globRegex pat) c ms' else .error (errInvalid b!"pattern")
       else if u = b!"COUNT" then
         match ms with
         | [] => .error (errMissing b!"count" errEOM)
